@@ -35,6 +35,9 @@ CHECKS = {
  "C15": ("other", "Comparison completeness of the statistics file (structural half): for each of the 7 structs in the serialisable closure of StatsCollector every field is either compared in validate_fields (same field on both sides) and copied from other.<field> into the rebuilt literal, or delegated to the sub-struct's validate_other with matching fields (is_finalized is the one exempt leaf); all closure types derive Serialize and Deserialize without skip/default/rename attributes; write_stats serialises the root that Controller::run deserialises; a mismatch stores the any-errors flag on all paths; the compared data is normalised (shares R5.3 of C05). Does not decide the behaviour of serde_json/toml.",
          "Trusted: rustc nightly front end, /verif/driver (attributes, impl table), fpv THIR walkers.",
          "type-closure scan + THIR field-pair extraction + MIR must-pass-through for the flag store", "DESIGN.md §3 C15"),
+ "C16": ("other", "Structural part of the exit-status contract: the normal form of util::lib::exit's conditions (code 0 AND any-errors code configured AND flag => N; SUCCESS; else the code) and that run() feeds it only 0/1; the any-errors flag store after the receive loop is control dependent on both the error total and the fatal error (F3 repaired) and the statistics-mismatch branch stores it too; validate_args()? dominates the configuration side effects and init_config dominates everything in run(); validate_args rejects each documented invalid combination; mute/error-code-filter/cap accessors are read only on display paths and every StatType::Error emission is inevitable on both outcomes of a display-option test; total_errors is written only together with a stored message. Does not decide -w string matching or -e counts.",
+         "Trusted: rustc nightly front end, /verif/driver, fpv (THIR condition normal forms, MIR control dependence, who-may-call).",
+         "THIR decision-table normal forms + MIR control dependence / dominance + who-may-call tables", "DESIGN.md §3 C16"),
 }
 
 NOT_APPLICABLE = {
